@@ -26,8 +26,11 @@ type Config struct {
 	MaxSection uint64 `json:"max_section,omitempty"`
 	// EOFAtEnd: the caller's ReaderAt (storage kinds only) reports io.EOF together with a full read
 	// that ends at the end of the medium.
-	EOFAtEnd bool      `json:"eof_at_end,omitempty"`
-	Roots    []BlkSpec `json:"roots"`
+	EOFAtEnd bool `json:"eof_at_end,omitempty"`
+	// SameHandle (store "rw" only): the caller opens the file once and hands the same handle to
+	// blockstore.OpenReadWriteFile for every (re)open, instead of a path.
+	SameHandle bool      `json:"same_handle,omitempty"`
+	Roots      []BlkSpec `json:"roots"`
 }
 
 func (c Config) Options() []carv2.Option {
